@@ -52,6 +52,7 @@ impl Partition {
             final(self).partition_id == old(self).partition_id,
             forall|j: int| 0 <= j < old(self).segments@.len() && (#[trigger] old(self).segments@[j]).start_offset != start_offset
                 ==> final(self).segments@.contains(old(self).segments@[j]),
+            r is Ok ==> forall|j: int| 0 <= j < final(self).segments@.len() ==> old(self).segments@.contains(#[trigger] final(self).segments@[j]),
             r is Ok ==> r->Ok_0.messages_count <= 0x1_0000_0000
                 && exists|i: int| 0 <= i < old(self).segments@.len() && (#[trigger] old(self).segments@[i]).start_offset == start_offset
                     && r->Ok_0.end_offset == old(self).segments@[i].end_offset,
@@ -63,7 +64,13 @@ impl Partition {
         ensures
             final(self).partition_id == old(self).partition_id,
             forall|j: int| 0 <= j < old(self).segments@.len() ==> final(self).segments@.contains(#[trigger] old(self).segments@[j]),
+            forall|j: int| 0 <= j < final(self).segments@.len() ==> old(self).segments@.contains(#[trigger] final(self).segments@[j]) || final(self).segments@[j].end_offset == 0,
     { unimplemented!() }
+}
+
+// every segment of f is a segment of o, or a fresh (empty) one
+pub open spec fn segs_from(o: Partition, f: Partition) -> bool {
+    forall|j: int| 0 <= j < f.segments@.len() ==> o.segments@.contains(#[trigger] f.segments@[j]) || f.segments@[j].end_offset == 0
 }
 
 // every segment of `o` that the list does not name (for partition pid) is still in `f`
@@ -153,3 +160,5 @@ pub proof fn lemma_entries_after_push(vals: Seq<&Partition>, upto: int, before: 
         }
     }
 }
+
+pub open spec fn vec_len_le(v: &Vec<SegmentsToHandle>, n: int) -> bool { v@.len() <= n }
